@@ -150,6 +150,7 @@ pub struct StepResult
 /* inputs: (name, declared?, content or None when the file does not exist) */
 pub fn evaluate_step(salt : &str, outs : &[OutSpec], inputs : &[(String, bool, Option<Vec<u8>>)], step_index : usize) -> StepResult
 {
+    let mut killed = false;
     for (_name, declared, content) in inputs
     {
         match content
@@ -165,8 +166,9 @@ pub fn evaluate_step(salt : &str, outs : &[OutSpec], inputs : &[(String, bool, O
                     let k : usize = rest.split_whitespace().next().unwrap_or("0").parse().unwrap_or(0);
                     if k == step_index { return StepResult { code : 1, writes : vec![], skipped : vec![] }; }
                 }
-                // "!FAILSIG ..." : the command is killed by a signal (no exit code at all)
-                else if c.starts_with(b"!FAILSIG") { return StepResult { code : -9, writes : vec![], skipped : vec![] }; }
+                // "!FAILSIG ..." : the command is killed by a signal (no exit code at all) after it has created its outputs,
+                // each holding only the first half of its bytes
+                else if c.starts_with(b"!FAILSIG") { killed = true; }
                 // "!FAILEXEC ..." : the system cannot start the command (execute_command returns an error for the line)
                 else if c.starts_with(b"!FAILEXEC") { return StepResult { code : -8, writes : vec![], skipped : vec![] }; }
                 else if c.starts_with(b"!FAIL") { return StepResult { code : 1, writes : vec![], skipped : vec![] }; }
@@ -218,6 +220,11 @@ pub fn evaluate_step(salt : &str, outs : &[OutSpec], inputs : &[(String, bool, O
             }
         }
         writes.push((out.path.clone(), bytes, out.exec));
+    }
+    if killed
+    {
+        for w in writes.iter_mut() { let half = w.1.len() / 2; w.1.truncate(half); }
+        return StepResult { code : -9, writes : writes, skipped : skipped };
     }
     StepResult { code : 0, writes : writes, skipped : skipped }
 }
@@ -279,6 +286,12 @@ pub fn run_script_line(sys : &VSys, line : &str, step_index : usize) -> CommandL
     if result.code == -8
     {
         return output(-8, CANNOT_EXECUTE);
+    }
+    if result.code == -9
+    {
+        // killed by a signal after the (half-written) outputs exist
+        for (path, bytes, exec) in result.writes.iter() { sys.cmd_write(path, bytes, *exec); }
+        return output(-9, "killed");
     }
     if result.code != 0
     {
